@@ -867,6 +867,93 @@ fn main() {
         }
     }
 
+    // ---------------------------------------------------------------- after a refused delimiter set
+    // "whatever the ... delimiter configuration": a set that set_delimiters REFUSES is part of what a
+    // caller can do to an instance. Afterwards every registration still has to end in Ok or Err
+    // (seeded change C06-8: the refused set stayed in force and the lexer, which assumes two-byte
+    // delimiters, panicked on the next comment).
+    {
+        let refused: Vec<(&str, [&str; 6])> = vec![
+            // [block_start, block_end, variable_start, variable_end, comment_start, comment_end]
+            ("comment_end-empty", ["{%", "%}", "{{", "}}", "{#", ""]),
+            ("comment_end-one-byte", ["{%", "%}", "{{", "}}", "{#", "#"]),
+            ("comment_end-three-byte-char", ["{%", "%}", "{{", "}}", "{#", "日"]),
+            ("comment_start-empty", ["{%", "%}", "{{", "}}", "", "#}"]),
+            ("comment_start-one-byte", ["{%", "%}", "{{", "}}", "#", "#}"]),
+            ("block_end-empty", ["{%", "", "{{", "}}", "{#", "#}"]),
+            ("block_end-three-bytes", ["{%", "%}}", "{{", "}}", "{#", "#}"]),
+            ("block_start-empty", ["", "%}", "{{", "}}", "{#", "#}"]),
+            ("block_start-one-byte", ["{", "%}", "{{", "}}", "{#", "#}"]),
+            ("variable_end-empty", ["{%", "%}", "{{", "", "{#", "#}"]),
+            ("variable_end-four-byte-char", ["{%", "%}", "{{", "😀", "{#", "#}"]),
+            ("variable_start-one-byte", ["{%", "%}", "{", "}}", "{#", "#}"]),
+            ("variable_start-three-byte-char", ["{%", "%}", "日", "}}", "{#", "#}"]),
+            ("equal-starts-block-variable", ["{{", "%}", "{{", "}}", "{#", "#}"]),
+            ("equal-starts-variable-comment", ["{%", "%}", "{#", "}}", "{#", "#}"]),
+            ("everything-empty", ["", "", "", "", "", ""]),
+        ];
+        let d0 = ds[0];
+        let alpha = dsets::char_alphabet(&d0);
+        let mut battery: Vec<String> = vec![String::new()];
+        for a in &alpha {
+            battery.push(a.clone());
+            for b in &alpha {
+                battery.push(format!("{a}{b}"));
+            }
+        }
+        for seed in seeds::hand_seeds() {
+            for (_, toks) in &seed.templates {
+                battery.push(seeds::print(toks, &seeds::DEFAULT_DELIMS.iter().map(|s| s.to_string()).collect::<Vec<_>>()));
+            }
+        }
+        for extra in ["{##}", "{# a #", "{# x 日 y", "{#-#}", "{# #}{# #}", "a{# c #}b{{ 1 }}{% if true %}c{% endif %}", "{% raw %}{# x #}{% endraw %}", "{#", "#}", "{# 😀 #}"] {
+            battery.push(extra.to_string());
+        }
+        let nb = battery.len();
+        run.extra("after_refused_delimiters", json!({"refused_sets": refused.iter().map(|(n, s)| json!({"name": n, "set": s})).collect::<Vec<_>>(), "battery_size": nb}));
+        run.family(
+            Family::new(
+                "after-refused-delimiters",
+                refused.len() as u64,
+                &format!("{} delimiter sets that set_delimiters refuses (each delimiter empty / one byte / three bytes / one multi-byte character, equal start delimiters), each tried on a fresh instance; afterwards a battery of {nb} sources (every string of length <= 2 over the character alphabet, the hand-written programs, comment and raw shapes) goes through add_raw_templates and render_str: Ok or Err, no panic, no hang", refused.len()),
+            )
+            .describe(|i| json!({"refused_set": refused[i as usize].0, "delimiters": refused[i as usize].1}))
+            .crash_signature(|i, kind| format!("{kind}:after-refused-delimiters:{}", refused[i as usize].0)),
+            |item, acc: &mut Acc| {
+                let (name, set) = &refused[item as usize];
+                let mut base = Tera::default();
+                let r = guarded(|| {
+                    base.set_delimiters(tera::Delimiters {
+                        block_start: set[0].to_string().into(),
+                        block_end: set[1].to_string().into(),
+                        variable_start: set[2].to_string().into(),
+                        variable_end: set[3].to_string().into(),
+                        comment_start: set[4].to_string().into(),
+                        comment_end: set[5].to_string().into(),
+                    })
+                });
+                match r {
+                    Ok(Err(_)) => {}
+                    Ok(Ok(())) => {
+                        // accepted after all: then it is one more configuration, exercised the same way
+                        acc.count("refused-set-accepted", 1);
+                    }
+                    Err(p) => {
+                        acc.violation(panic_sig("set_delimiters", &p), format!("set_delimiters panicked on the set `{name}`: {p}"), || json!({"set": set}));
+                        return;
+                    }
+                }
+                let mut r = Runner::new(&base, "after-refused-delimiters");
+                for src in &battery {
+                    let case = || json!({"history": format!("set_delimiters({name}: {set:?}) was refused on this instance"), "source": src, "context": "empty"});
+                    let a = r.add(&[(dsets::TPL_NAME, src.as_str())], acc, &case);
+                    let k = r.render_str(src, true, acc, &case);
+                    acc.case(d0.has_start_marker(src), &PAIR_NAMES[a * KINDS.len() + k]);
+                }
+            },
+        );
+    }
+
     // ---------------------------------------------------------------- names
     let long_ascii = "x".repeat(1024);
     let long_html = format!("{}.html", "y".repeat(1019));
